@@ -40,7 +40,11 @@ func main() {
 	n := fs.Int("n", 100, "number of cases")
 	wide := fs.Bool("wide", false, "use the wider (thorough) generators")
 	replay := fs.String("replay", "", "re-run the inputs of this JSONL file instead of generating")
+	prop := fs.String("prop", "", "property id whose predicates the Lean handler evaluates (default: by workload)")
 	_ = fs.Parse(os.Args[2:])
+	if *prop != "" {
+		os.Setenv("VERIF_READS_PROP", *prop)
+	}
 	w, ok := gen.Workloads[name]
 	if !ok {
 		fmt.Fprintf(os.Stderr, "unknown workload %q\n", name)
